@@ -420,9 +420,15 @@ ares_status_t ares_reinit(ares_channel_t *channel)
     return ARES_SUCCESS;
   }
   channel->reinit_pending = ARES_TRUE;
-  ares_channel_unlock(channel);
 
   if (ares_threadsafety()) {
+    /* Keep holding the channel lock until the new thread handle is stored:
+     * otherwise a second ares_reinit() caller, or ares_destroy(), can run
+     * between the reinit_pending gate and the handle store and the thread
+     * is never joined.  The new thread only needs the lock after it has read
+     * the configuration, and the prior thread released it for good before
+     * reinit_pending became false, so this cannot deadlock. */
+
     /* clean up the prior reinit process's thread.  We know the thread isn't
      * running since reinit_pending was false */
     if (channel->reinit_thread != NULL) {
@@ -436,13 +442,13 @@ ares_status_t ares_reinit(ares_channel_t *channel)
       ares_thread_create(&channel->reinit_thread, ares_reinit_thread, channel);
     if (status != ARES_SUCCESS) {
       /* LCOV_EXCL_START: UntestablePath */
-      ares_channel_lock(channel);
       channel->reinit_pending = ARES_FALSE;
-      ares_channel_unlock(channel);
       /* LCOV_EXCL_STOP */
     }
+    ares_channel_unlock(channel);
   } else {
     /* Threading support not available, call directly */
+    ares_channel_unlock(channel);
     ares_reinit_thread(channel);
   }
 
